@@ -36,7 +36,7 @@ MODELS_USED = ["symreal ExtensionArray", "symnp.quantile"]
 ASSUMPTIONS = ["floats as reals: n_valid/float(n_total) < 0.9 is modelled as 10*n_valid < 9*n_total (justified for float64 by the QF_FP lemma, thorough tier)",
                "end-to-end acceptance of arbitrary well-formed frames is checked on an enumerated catalogue only (structure is not solver-quantified)",
                "frequency detection and _check_extreme_values on year-long data are outside the claim"]
-EXPECTED_REGIMES = ["span below 329", "span above 365", "exactly 90% valid days", "just under 90%", "negative gas usage", "negative usage on a day without temperature", "month under 90% temperature", "extreme value flagged"]
+EXPECTED_REGIMES = ["span below 329", "span above 365", "exactly 90% valid days", "just under 90%", "negative gas usage", "negative usage on a day without temperature", "interpolated temperature hour", "last supplied days lack usage and temperature", "month under 90% temperature", "extreme value flagged"]
 FAMS = {"daily": sc.DailySufficiencyCriteria, "billing": sc.BillingSufficiencyCriteria, "hourly": sc.HourlySufficiencyCriteria}
 P = "eemeter.sufficiency_criteria."
 
@@ -55,7 +55,7 @@ def ENCODED():
 def cases(tier, seed):
     out = [f"driver/{f}/{r}" for f in FAMS for r in ("baseline", "reporting")]
     out += [f"frame/valid-days/{k}/{r}" for k in ("daily", "billing", "hourly") for r in ("baseline", "reporting")]
-    out += ["frame/negative", "frame/monthly", "frame/extreme", "ground/constructors"]
+    out += ["frame/negative", "frame/monthly", "frame/extreme", "ground/constructors", "frame/hourly-sdf", "frame/edges"]
     if tier == "thorough":
         out.append("fp/ratio")
     return out
@@ -320,10 +320,162 @@ def run_negative(case):
         want = z3.And(neg, z3.BoolVal((not electric) and role == "baseline"))
         case.prove(p, z3.BoolVal((P + "negative_meter_values") in dq) == want, "negative usage disqualifies exactly non-electric baselines", replay=rp)
         case.prove(p, ((P + "no_data") in dq) == all(s == "nan" or t == "nan" for s, t in zip(st, tst)), "no_data <=> every row has a missing value", replay=rp)
-        case.regime("negative usage on a day without temperature", any(s == "val" and t == "nan" for s, t in zip(st, tst)) and (P + "negative_meter_values") in dq)
+        case.regime("negative usage on a day without temperature", "interpolated temperature hour", "last supplied days lack usage and temperature", any(s == "val" and t == "nan" for s, t in zip(st, tst)) and (P + "negative_meter_values") in dq)
         if (P + "negative_meter_values") in dq:
             case.regime("negative gas usage")
     case.sample(dict(check="_check_negative_meter_values/_check_no_data", rows=n))
+
+
+# ------------------------------------------------------------------ daily data class: every supplied day reaches the test
+
+EDGE_N = 7
+EDGE_ROWS = (0, 3, EDGE_N - 1)
+
+
+def edges_run(ost, tst, sym, env=None):
+    """real DailyBaselineData on a 7-day frame whose first, middle and last day may lack usage and/or temperature;
+    returns (frame handed to the sufficiency test, data frame) or None when the class refuses the input"""
+    import opendsm.eemeter.models.daily.data as dd
+    idx = pd.date_range("2021-12-25", periods=EDGE_N, freq="D", tz="US/Pacific")
+
+    def col(prefix, st):
+        out = []
+        for i in range(EDGE_N):
+            if st.get(i) == "nan":
+                out.append(NAN if sym else np.nan)
+            else:
+                out.append(real(f"{prefix}{i}") if sym else float(env.get(f"{prefix}{i}", 1.0 + i)))
+        return SymArray(out) if sym else np.array(out, dtype=float)
+    df = pd.DataFrame({"observed": col("o", ost), "temperature": col("T", tst)}, index=idx)
+    orig = dd.DailyBaselineData._check_data_sufficiency
+    seen = {}
+
+    def spy(self, sufficiency_df):
+        seen["sdf"] = sufficiency_df
+        return orig(self, sufficiency_df)
+    with patched(dd.DailyBaselineData, _check_data_sufficiency=spy):
+        try:
+            d = dd.DailyBaselineData(df, is_electricity_data=False)
+        except (ValueError, AttributeError):
+            return None
+    return idx, seen.get("sdf"), d.df
+
+
+def edges_problems(res, ost, tst):
+    if res is None:
+        return []
+    idx, sdf, df = res
+    pr = []
+    for name, f in (("frame handed to the sufficiency test", sdf), ("data frame", df)):
+        if f is None or list(f.index) != list(idx):
+            pr.append(f"{name} has {0 if f is None else len(f)} rows ({None if f is None or not len(f) else str(f.index[0].date())} .. {None if f is None or not len(f) else str(f.index[-1].date())}) "
+                      f"for {len(idx)} supplied days ({idx[0].date()} .. {idx[-1].date()})")
+            continue
+        for c, st in (("observed", ost), ("temperature", tst)):
+            got = [is_nan(x) for x in cells(f[c])]
+            want = [st.get(i) == "nan" for i in range(EDGE_N)]
+            if got != want:
+                pr.append(f"{name}: {c} missing on days {[i for i, g in enumerate(got) if g]}, supplied data lacks it on {[i for i, w in enumerate(want) if w]}")
+    return pr
+
+
+def replay_edges(inp):
+    import logging
+    logging.disable(logging.CRITICAL)
+    ost = {int(k): v for k, v in inp["ost"].items()}
+    tst = {int(k): v for k, v in inp["tst"].items()}
+    pr = edges_problems(edges_run(ost, tst, False, inp["env"]), ost, tst)
+    return bool(pr), "; ".join(pr[:3])
+
+
+def run_edges(case):
+    from . import dataclass as D
+    case.inputs = [z3.Real(f"o{i}") for i in range(EDGE_N)] + [z3.Real(f"T{i}") for i in range(EDGE_N)]
+
+    def run():
+        ost = {i: F.choose(f"o_state{i}", ["val", "nan"]) for i in EDGE_ROWS}
+        tst = {i: F.choose(f"T_state{i}", ["val", "nan"]) for i in (EDGE_ROWS[0], EDGE_ROWS[-1])}
+        return ost, tst, edges_run(ost, tst, True)
+
+    with D.symbolic_dataclasses():
+        paths = case.explore(run)
+    for p in paths:
+        if p.outcome != "ret":
+            case.rep["harness_errors"].append(f"DailyBaselineData raised {p.value!r}")
+            continue
+        ost, tst, res = p.value
+        rp = ("edges", (lambda a, b: lambda mdl: dict(ost={str(k): v for k, v in a.items()}, tst={str(k): v for k, v in b.items()}, env=_ienv(mdl, case.inputs)))(ost, tst))
+        pr = edges_problems(res, ost, tst)
+        case.prove(p, not pr, "every supplied day reaches the sufficiency test with exactly the usage/temperature it was supplied with (first and last days included)", replay=rp)
+        case.regime("last supplied days lack usage and temperature", ost[EDGE_N - 1] == "nan" and tst[EDGE_N - 1] == "nan" and res is not None)
+        case.regime("data class refused the input", res is None)
+    case.sample(dict(rows=EDGE_N, paths=len(paths)))
+
+
+# ------------------------------------------------------------------ hourly: frame handed to the sufficiency test
+
+def hourly_sdf_run(states, vals):
+    """real hourly.data._create_sufficiency_df on a 2-row frame; states[col][i] in {"measured", "interpolated", "missing"}"""
+    import opendsm.eemeter.models.hourly.data as hd
+    idx = pd.date_range("2021-01-04", periods=2, freq="h", tz="UTC")
+    cols = {}
+    for c in ("observed", "temperature", "ghi"):
+        cols[c] = vals[c]
+        cols[f"interpolated_{c}"] = [1 if s == "interpolated" else 0 for s in states[c]]
+    df = pd.DataFrame(cols, index=idx)
+    return hd._create_sufficiency_df(df)
+
+
+def _sdf_check(out, states, value_of):
+    """list of problems: a value counts as measured exactly when it was supplied (not filled, not missing)"""
+    pr = []
+    for c in ("observed", "temperature", "ghi"):
+        got = cells(out[c])
+        for i, s in enumerate(states[c]):
+            measured = s == "measured"
+            if measured != (not is_nan(got[i])):
+                pr.append(f"{c}[{i}] was {s} but reaches the sufficiency test as {'a value' if not is_nan(got[i]) else 'missing'}")
+            elif measured and not value_of(got[i], c, i):
+                pr.append(f"{c}[{i}] changed on the way to the sufficiency test")
+    tn, tnn = [float(x) for x in cells(out["temperature_null"])], [float(x) for x in cells(out["temperature_not_null"])]
+    for i, s in enumerate(states["temperature"]):
+        want = (0.0, 1.0) if s == "measured" else (1.0, 0.0)
+        if (tn[i], tnn[i]) != want:
+            pr.append(f"temperature[{i}] was {s}: counts (null, not null) = {(tn[i], tnn[i])}, expected {want}")
+    return pr
+
+
+def replay_hourly_sdf(inp):
+    states = inp["states"]
+    vals = {c: np.array([np.nan if states[c][i] == "missing" else float(inp["env"].get(f"{c[0]}{i}", 1.0 + i)) for i in range(2)]) for c in states}
+    out = hourly_sdf_run(states, vals)
+    pr = _sdf_check(out, states, lambda g, c, i: float(g) == float(vals[c][i]))
+    return bool(pr), "; ".join(pr[:3])
+
+
+def run_hourly_sdf(case):
+    case.inputs = [z3.Real(f"{c}{i}") for c in "otg" for i in range(2)]
+    import opendsm.eemeter.models.hourly.data as hd
+    from symv.carriers import patched as _patched
+
+    def run():
+        states = {c: [F.choose(f"{c}_state{i}", ["measured", "interpolated", "missing"]) if i == 0 or c == "temperature" else "measured" for i in range(2)]
+                  for c in ("observed", "temperature", "ghi")}
+        vals = {c: SymArray([NAN if states[c][i] == "missing" else real(f"{c[0]}{i}") for i in range(2)]) for c in states}
+        return states, hourly_sdf_run(states, vals)
+
+    with _patched(hd, np=symnp):
+        paths = case.explore(run)
+    for p in paths:
+        if p.outcome != "ret":
+            case.rep["harness_errors"].append(f"_create_sufficiency_df raised {p.value!r}")
+            continue
+        states, out = p.value
+        rp = ("hourly-sdf", (lambda st: lambda mdl: dict(states=st, env=_ienv(mdl, case.inputs)))(states))
+        pr = _sdf_check(out, states, lambda g, c, i: isinstance(g, SReal) and z3.eq(z3.simplify(lift(g)), z3.Real(f"{c[0]}{i}")))
+        case.prove(p, not pr, "hourly: exactly the measured (not filled, not missing) values and hours are counted by the sufficiency test", replay=rp)
+        case.regime("interpolated temperature hour", "last supplied days lack usage and temperature", "interpolated" in states["temperature"])
+    case.sample(dict(check="_create_sufficiency_df", paths=len(paths)))
 
 
 def monthly_run(col, states, fam="hourly", role="baseline"):
@@ -513,7 +665,7 @@ def replay_fp(inp):
     return ((k / float(n)) < 0.9) != (10 * k < 9 * n), f"k={k}, n={n}: {k / float(n)}"
 
 
-REPLAY = {"driver": replay_driver, "valid": replay_valid, "negative": replay_negative, "monthly": replay_monthly, "extreme": replay_extreme,
+REPLAY = {"edges": replay_edges, "hourly-sdf": replay_hourly_sdf, "driver": replay_driver, "valid": replay_valid, "negative": replay_negative, "monthly": replay_monthly, "extreme": replay_extreme,
           "ctor": replay_ctor, "fp": replay_fp}
 
 
@@ -524,7 +676,7 @@ def run_case(case: Case, name: str):
     if parts[0] == "frame" and parts[1] == "valid-days":
         return run_valid_days(case, parts[2], parts[3])
     if parts[0] == "frame":
-        return {"negative": run_negative, "monthly": run_monthly, "extreme": run_extreme}[parts[1]](case)
+        return {"negative": run_negative, "monthly": run_monthly, "extreme": run_extreme, "hourly-sdf": run_hourly_sdf, "edges": run_edges}[parts[1]](case)
     if parts[0] == "ground":
         return run_ctors(case)
     return run_fp(case)
